@@ -120,6 +120,48 @@ def run(args):
                 inner = [l for l in loops if l is not outer[0]]
                 nested_ok = all(any(x is l for x in A.walk(outer[0].get("body"))) for l in inner)
                 rep.obligation(nested_ok, lambda: C.Finding("C16", "R-LOOP", site, "a loop exists outside the max_iterations-bounded loop", f["file"], f["line"]))
+            # (b') freshness: nothing computed from the iterate before the loop is used inside it without being recomputed
+            if outer:
+                ret = [x for x in A.walk(f.get("body")) if x.get("k") == "ReturnStmt"]
+                it_decls = set()
+                for r_ in ret:
+                    e = A.strip(r_.get("e"))
+                    while isinstance(e, dict) and e.get("k") in ("CXXConstructExpr", "ImplicitCastExpr", "MaterializeTemporaryExpr") and e.get("ch"):
+                        e = A.strip(e["ch"][0])
+                    if isinstance(e, dict) and e.get("k") == "DeclRefExpr" and e.get("dk") == "Var":
+                        it_decls.add(e["decl"])
+                it_decls = {d for d in it_decls if writes_to(outer[0].get("body"), {d})}
+                stale = {}
+                for s_ in stmts:
+                    if s_ is outer[0] or any(x is outer[0] for x in A.walk(s_)):
+                        break
+                    if s_.get("k") == "DeclStmt":
+                        for d in s_.get("decls") or []:
+                            if d.get("k") == "VarDecl" and d.get("init") is not None and d["decl"] not in it_decls and refs(d["init"], it_decls | set(stale)):
+                                stale[d["decl"]] = d
+                    for x in A.walk(s_):
+                        if x.get("k") in ("BinaryOperator", "CXXOperatorCallExpr") and x.get("op") == "=" and x.get("ch"):
+                            ch = x["ch"]
+                            lhs = A.strip(ch[0] if x.get("k") == "BinaryOperator" else ch[1])
+                            rhs = ch[-1]
+                            if isinstance(lhs, dict) and lhs.get("k") == "DeclRefExpr" and lhs.get("decl") not in it_decls and refs(rhs, it_decls | set(stale)):
+                                stale[lhs["decl"]] = lhs
+                n_fresh = 0
+                for d_, node in stale.items():
+                    rewritten = [w.get("ln") or 0 for w in writes_to(outer[0].get("body"), {d_})]
+                    for x in A.walk(outer[0].get("body")):
+                        if x.get("k") == "DeclRefExpr" and x.get("decl") == d_:
+                            if any(x is (A.strip(w["ch"][0]) if w.get("k") != "CXXOperatorCallExpr" else A.strip(w["ch"][1])) for w in writes_to(outer[0].get("body"), {d_}) if w.get("ch")):
+                                continue     # the write itself
+                            if rewritten and min(rewritten) <= (x.get("ln") or 0):
+                                continue     # recomputed earlier in the same pass
+                            n_fresh += 1
+                            rep.fail(C.Finding("C16", "R-ITER.fresh", "%s:%s" % (site, node.get("name")),
+                                               "`%s` is computed from the iterate before the loop and read at line %s inside it although the iterate changes in every pass: the update is not a function of the current iterate (stale linearisation point)" % (node.get("name"), x.get("ln")),
+                                               f["file"], x.get("ln")))
+                            break
+                if not n_fresh:
+                    rep.ok()
             # (d) elements are produced only through group operations
             for x in A.walk(f.get("body")):
                 if x.get("k") in ("CXXConstructExpr", "CXXTemporaryObjectExpr") and x.get("inrepo") and str(x.get("cls", "")).startswith("manif::"):
@@ -134,6 +176,7 @@ def run(args):
         "R-MPT.empty: a check raising on an empty container precedes every use of the container",
         "R-MPT.singleton: a one-element container is returned (its element) before any iteration",
         "R-LOOP: exactly one outer loop `for (i = 0; i < max_iterations; ++i)`; every loop is a counted loop whose counter and bound are not modified in its body; inner loops advance an iterator to end(); no while/do loops => at most max_iterations*|points| group operations",
+        "R-ITER.fresh: no value derived from the iterate before the max_iterations loop is read inside it without being recomputed in the same pass (the update is a function of the current iterate only)",
         "R-CONSTRUCT: elements are produced only through group operations (+=, lplus, rplus, +), never from raw coefficients",
     ]
     rep.observations.append("average() ignores its eps parameter and uses Constants<Scalar>::eps (clang-tidy misc-unused-parameters cross-reference); not a clause of the property")
